@@ -77,7 +77,7 @@ void warn_tok(Token *tok, char *fmt, ...) {
 
 // Consumes the current token if it matches `op`.
 bool equal(Token *tok, char *op) {
-  return memcmp(tok->loc, op, tok->len) == 0 && op[tok->len] == '\0';
+  return strlen(op) == tok->len && memcmp(tok->loc, op, tok->len) == 0;
 }
 
 // Ensure that the current token is `op`.
@@ -198,7 +198,7 @@ static int read_escaped_char(char **new_pos, char *p) {
 
     int c = 0;
     for (; isxdigit(*p); p++)
-      c = (c << 4) + from_hex(*p);
+      c = ((unsigned)c << 4) + from_hex(*p);
     *new_pos = p;
     return c;
   }
